@@ -61,7 +61,7 @@ cases sharing a block (F3; not: a header op that ends the routine; a case block 
 `break_loop` / `jump` — `_process_block` may fold it into the header jumps — only if nothing can fall into it: it is the first
 block of the switch, or the block before it ends in `return` / `end` / `hold` / `break` / `continue` / `break_loop` / `jump`;
 `nf` of `cgCases`); from level 4 on user labels,
-`jump @l` and `call @l` anywhere (F4) -/
+`jump @l` and `call @l` anywhere (F4); from level 5 on macro calls (F5) -/
 def cgStmt (lv : Nat) : Stmt → Bool
   | .op n ps => cgSimple (.op n ps)
   | .inl c cp n ps => cgSimple (.inl c cp n ps)
@@ -81,7 +81,7 @@ def cgStmt (lv : Nat) : Stmt → Bool
   | .forever body => decide (2 ≤ lv) && cgStmts lv body
   | .while_ _ h body => decide (2 ≤ lv) && isTest h.name && cgStmts lv body
   | .for_ init h inc body => decide (2 ≤ lv) && isTest h.name && cgSimple init && cgSimple inc && cgStmts lv body
-  | _ => false
+  | .macroCall _ _ => decide (5 ≤ lv)
 def cgStmts (lv : Nat) : Stmts → Bool
   | .nil => true
   | .cons s r => cgStmt lv s && cgStmts lv r
@@ -141,9 +141,9 @@ theorem pm_congr {cx : Cx} {mc : M (List LItem)} {t1 t2 : Nat → Src.B → Src.
 /-- a halting control statement is the op of its name -/
 theorem ctl_simple (cx : Cx) (fuel : Nat) (env : Src.Env) (he : EnvOK cx env) (nm sn : String) (st : Src.Stmt)
     (hn : nameOK nm = true) (hf : Beh.endsFlow nm = true) (hnm : nm = sn) (hnr : nm ≠ Gen.op_return ∨ cx.cp.ret = none)
-    (htr : ∀ k b, Src.tr fuel [] env st k b = b.push (.halt ⟨sn, []⟩)) {s : St} {items : List LItem} {s' : St}
+    (htr : ∀ k b, Src.tr fuel cx.sm env st k b = b.push (.halt ⟨sn, []⟩)) {s : St} {items : List LItem} {s' : St}
     (h : opStmt nm [] s = .ok (items, s')) :
-    SimpleOK cx items (fun k b => Src.tr fuel [] env st k b) ∧ SameStk s s' := by
+    SimpleOK cx items (fun k b => Src.tr fuel cx.sm env st k b) ∧ SameStk s s' := by
   subst hnm
   obtain ⟨a, b⟩ := op_simple cx fuel nm [] hn hnr h env he
   refine ⟨simpleOK_congr a (fun k b => ?_), b⟩
@@ -152,7 +152,7 @@ theorem ctl_simple (cx : Cx) (fuel : Nat) (env : Src.Env) (he : EnvOK cx env) (n
 
 /-- `return;` : the end of the routine, or inside a macro expansion the jump to the end label of the expansion -/
 theorem ret_pm (cx : Cx) (fuel : Nat) (env : Src.Env) (he : EnvOK cx env) :
-    PM cx (opStmt Gen.op_return []) (fun k b => Src.tr fuel [] env .ret k b) env := by
+    PM cx (opStmt Gen.op_return []) (fun k b => Src.tr fuel cx.sm env .ret k b) env := by
   intro s items s' h
   cases hr : env.ret with
   | none =>
@@ -166,7 +166,7 @@ theorem ret_pm (cx : Cx) (fuel : Nat) (env : Src.Env) (he : EnvOK cx env) :
     simp only [Prod.mk.injEq] at h2
     obtain ⟨rfl, rfl⟩ := h2
     obtain ⟨rfl, rfl⟩ := genOp_spec h1
-    have htr : ∀ k b, Src.tr fuel [] env .ret k b = (b, kr) := by
+    have htr : ∀ k b, Src.tr fuel cx.sm env .ret k b = (b, kr) := by
       intro k b; rw [Src.tr]; simp [hr]
     have hst := sameStk_tickedOp s 1
     refine ⟨hst.1, hst.2, hst.3, ?_, ?_, ?_, ?_, ?_, ?_⟩
@@ -189,7 +189,7 @@ theorem ctx_pm (cx : Cx) (fuel : Nat) (env : Src.Env) (he : EnvOK cx env) (c : S
     {mc : M (List LItem)}
     (hmc : ∀ s items s', mc s = .ok (items, s') → ∃ oc oo, items = [.op ⟨oc, c, [cp]⟩, .op ⟨oo, n, ps⟩] ∧ SameStk s s')
     {s : St} {items : List LItem} {s' : St} (h : mc s = .ok (items, s')) :
-    SimpleOK cx items (fun k b => Src.tr fuel [] env (.ctx c [convParam cp] inner) k b) ∧ SameStk s s' := by
+    SimpleOK cx items (fun k b => Src.tr fuel cx.sm env (.ctx c [convParam cp] inner) k b) ∧ SameStk s s' := by
   obtain ⟨oc, oo, rfl, hst⟩ := hmc s items s' h
   refine ⟨ctx_simple cx c cp n ps hc hn hnr oc oo en (Src.substEv env.subst ⟨c, [convParam cp]⟩) hen (he.ev c [cp]) _ (fun k b => ?_), hst⟩
   rw [Src.tr]
@@ -224,8 +224,8 @@ theorem patchNone_if (e : Nat) (c : Bool) (l : List LItem) : patchNone e (if c t
 
 /-- the statements of F0 never look at the exits -/
 theorem simple_c (cx : Cx) (fuel : Nat) : ∀ (st : Stmt) (lb : Nat), cgSimple st = true → ∀ (env : Src.Env), EnvOK cx env →
-    ∀ (s : St) (items : List LItem) (s' : St), cStmt [] lb st s = .ok (items, s') →
-    SimpleOK cx items (fun k b => Src.tr fuel [] env (toSrcStmt st) k b) ∧ SameStk s s'
+    ∀ (s : St) (items : List LItem) (s' : St), cStmt cx.cm lb st s = .ok (items, s') →
+    SimpleOK cx items (fun k b => Src.tr fuel cx.sm env (toSrcStmt st) k b) ∧ SameStk s s'
   | .op n ps, lb, hg, env, he => by
     intro s items s' h
     simp only [cgSimple, Bool.and_eq_true, bne_iff_ne, ne_eq] at hg
@@ -280,7 +280,7 @@ theorem simple_c (cx : Cx) (fuel : Nat) : ∀ (st : Stmt) (lb : Nat), cgSimple s
   | .macroCall .., _, hg, _, _ => by simp [cgSimple] at hg
 
 theorem simple_pm (cx : Cx) (fuel : Nat) (st : Stmt) (lb : Nat) (hg : cgSimple st = true) (env : Src.Env) (he : EnvOK cx env) :
-    PM cx (cStmt [] lb st) (fun k b => Src.tr fuel [] env (toSrcStmt st) k b) env := by
+    PM cx (cStmt cx.cm lb st) (fun k b => Src.tr fuel cx.sm env (toSrcStmt st) k b) env := by
   intro s items s' h
   obtain ⟨a, b⟩ := simple_c cx fuel st lb hg env he s items s' h
   exact a.piece b env
